@@ -398,7 +398,7 @@ class Plan:
             return self.keys[k]
         order = list(range(len(desc["tracks"])))
         sc, ids = M.scenario(desc, order)
-        sc["callbacks"] = [dict(c, **({"exc": d["exc"]} if d.get("exc") else {})) for c, d in zip(sc["callbacks"], desc["callbacks"])]
+        sc["callbacks"] = [dict(c, **{k_: d[k_] for k_ in ("exc", "form") if d.get(k_)}) for c, d in zip(sc["callbacks"], desc["callbacks"])]
         if mode_ignore is not None:
             sc["config"]["ignore"] = mode_ignore
         if dev_fail is not None:
@@ -635,7 +635,41 @@ def gen_cases(rng, n_base, per_base):
                     cases.append({"kind": "life", "site": "reused-timeline", "b": b, "f": [f], "idx": [idx], "ignore": ignore, "ctor": ignore,
                                   "flips": [], "item": item, "first": first, "between": [o[0] for o in between], "again": again,
                                   "run": i_life, "hand": i_hand, "minus": i_minus, "desc": fl})
+    cases += callback_form_cases(plan)
     return plan, cases
+
+
+CB_FORMS = ("function", "partial", "callable-object", "bound-method")
+
+
+def callback_form_cases(plan):
+    """a FIXED stratum, the same in every run and independent of the seed: every callable form of a user callback x {raises an
+    exception, raises StopIteration, does not raise} x both tolerance modes, on a short scenario with one action track and one healthy
+    track (a functools.partial and a callable object have no __name__, a bound method is not a function)"""
+    out = []
+    note = lambda p, ch: {"k": "note", "dur": F(1), "note": p, "amp": 64, "gate": [1, 2], "chan": ch}
+    for fi, form in enumerate(CB_FORMS):
+        for rwd in (True, False):
+            def desc_for(raise_, exc=None):
+                items = [note(50, 1), {"k": "action", "cb": 0, "dur": F(1)}, note(52, 1), note(53, 1)]
+                return {"tpb": 4, "horizon": 24, "config": {"ignore": True, "stop_when_done": False},
+                        "callbacks": [dict({"raise": raise_, "ops": [], "owner": 1, "form": form}, **({"exc": exc} if exc else {}))],
+                        "tracks": [{"chan": 1, "stream": G.stream(items, False, "scripted"), "at": 0, "q": None, "d": None, "count": None,
+                                    "rwd": rwd, "unschedule_at": None},
+                                   {"chan": 2, "stream": G.stream([note(70, 2), note(71, 2), note(72, 2), note(73, 2), note(74, 2)], False, "scripted"),
+                                    "at": 0, "q": None, "d": None, "count": None, "rwd": True, "unschedule_at": None}]}
+            d_none = desc_for("none")
+            i_none = plan.add(("cbform-none", form, rwd), d_none)
+            for kind, raise_, exc in (("cb_exc", "exc", EXC_NAMES[(2 * fi + rwd) % len(EXC_NAMES)]), ("cb_stop", "stop", None)):
+                if kind == "cb_stop" and not rwd and False:
+                    continue
+                d_f = desc_for(raise_, exc)
+                for ignore in (True, False):
+                    i_run = plan.add(("cbform", form, rwd, raise_, ignore), d_f, mode_ignore=ignore)
+                    out.append({"kind": kind, "site": "callback", "b": -1, "f": [0], "idx": [1], "cb": 0, "ignore": ignore, "ctor": ignore,
+                                "flips": [], "setup": "ctor", "exc": exc, "run": i_run, "none": i_none, "desc": d_f, "form": form,
+                                "raise": raise_})
+    return out
 
 
 def judge_life(case, plan, results, catalogue):
@@ -1110,6 +1144,7 @@ def check(run):
         for j, r in enumerate(out["results"]):
             results[si + j * 14] = r
     flagged = set()
+    forms_fired = {}
     for i, r in enumerate(results):
         if "driver_error" in r:
             flagged.add(i)
@@ -1137,6 +1172,12 @@ def check(run):
             run.dist("class." + str(site_class(case["item"], catalogue)))
         elif case.get("exc"):
             run.dist("class." + case["exc"])
+        if case.get("form"):
+            fired = any(c == ["cb", case["cb"]] for o_ in results[case["run"]].get("obs", []) for c in o_[1])
+            run.dist("callback-form.%s.raises-%s.%s" % (case["form"], "StopIteration" if case["raise"] == "stop" else "exception",
+                                                         "fired" if fired else "NOT-FIRED"))
+            if fired:
+                forms_fired.setdefault(case["form"], set()).add(case["raise"])
         if case.get("after"):
             run.dist("after-fault." + case["after"])
             if case["after"] == "fault-before-the-reschedule":
@@ -1181,6 +1222,10 @@ def check(run):
         if len(run.cov["samples"]) < 3 and st:
             run.sample({"fault": {k: case[k] for k in ("kind", "site", "f", "idx", "j", "ignore") if k in case}, "strikes": st,
                         "ops": [o[0] if o[0] != "tick" else o for o in plan.scs[case["run"]][0]["ops"]]})
+    # coverage floor: in every run a raising callback of every callable form has actually fired
+    missing_forms = [f_ for f_ in CB_FORMS if forms_fired.get(f_, set()) != {"exc", "stop"}]
+    if missing_forms and not run.violations:
+        raise CheckError("callback forms without a fired raising callback (exception AND StopIteration) in this run: %s" % missing_forms)
     # model vs implementation on every tick()-driven run (faulty runs and reference runs), calls and clock
     tickable = [i for i in range(len(plan.fin)) if not any(o[0] in LIFE_OPS for o in plan.fin[i]["ops"]) and "driver_error" not in results[i]
                 and not plan.fin[i]["config"].get("device")]
